@@ -1,3 +1,5 @@
--- This module serves as the root of the `BloomVerif` library.
--- Import modules here that should be built as part of the library.
-import BloomVerif.Basic
+-- Root of the `BloomVerif` library: every model, bridge, lemma and property module.
+import BloomVerif.Bridge.Leaf
+import BloomVerif.Props.C01
+import BloomVerif.Props.C02
+import BloomVerif.Props.C04
